@@ -10,7 +10,7 @@ from ..ref import Poly
 RELS = ["eq", "ne", "lt", "le", "gt", "ge"]
 SHAPES = ["random", "sum-minus-1", "weighted-sum-minus-c", "z-minus-xy", "one-minus-two-monomials",
           "m1-minus-m2", "nonneg-offset-unary", "min-zero", "max-zero", "always-true", "never-true",
-          "pow2-range", "single-var", "dense"]
+          "pow2-range", "single-var", "dense", "gate-identity-or-near-miss"]
 
 
 def anc_names(keys):
@@ -73,6 +73,31 @@ def shape_poly(rng, labs):
         if n > 1:
             P[(labs[1],)] = rng.choice([1, 2, 4])
         P[()] = -rng.choice([1, 2, 4, 8])
+    elif shape == "gate-identity-or-near-miss":
+        # z = OR / AND / NAND / NOR / XOR of two variables written as a polynomial identity, or the same terms with the
+        # product on another pair, a sign flipped, the constant moved: three linear terms and one product of equal magnitude
+        if n >= 3:
+            z, a, b = rng.sample(labs, 3)
+            c = rng.choice([1, 1, -1, 2])
+            base = rng.choice(["or", "and", "nand", "nor", "xor"])
+            P = {"or": {(z,): c, (a,): -c, (b,): -c, (a, b): c},
+                 "and": {(z,): c, (a, b): -c},
+                 "nand": {(z,): c, (): -c, (a, b): c},
+                 "nor": {(z,): c, (): -c, (a,): c, (b,): c, (a, b): -c},
+                 "xor": {(z,): c, (a,): -c, (b,): -c, (a, b): 2 * c}}[base]
+            r_ = rng.random()
+            if r_ < 0.5:
+                # near miss: the product sits on a pair that contains the output variable
+                pk = [k for k in P if len(k) == 2][0]
+                v_ = P.pop(pk)
+                P[(z, rng.choice([a, b]))] = v_
+            elif r_ < 0.65:
+                k_ = rng.choice([k for k in P if len(k) == 1])
+                P[k_] = -P[k_]
+            elif r_ < 0.75:
+                P[()] = P.get((), 0) + rng.choice([1, -1])
+        else:
+            P = {(labs[0],): 1, (): -1}
     elif shape == "single-var":
         P = {(labs[0],): rng.choice([-2, -1, 1, 2]), (): rng.choice([-1, 0, 1])}
     else:  # dense
@@ -364,3 +389,97 @@ def one_history(ctx, rng, kind, with_objective=True, max_constraints=4):
     if ncon >= 2:
         ctx.cat("multi-constraint-history")
     ctx.sample({"model": T.__name__, "history": hist[:4]}, limit=3)
+
+
+def huge_bound_case(ctx, rng):
+    """Inequalities whose bound needs 50-70 slack bits (integer coefficients around 2**k): the full truth table is out of
+    reach, but the penalty is lam * (P + slack)**2 with non-negative slack weights, so (a) a satisfying assignment must
+    have an ancilla setting with penalty exactly 0 -- found greedily from the slack weights read off the model itself --
+    (b) a violating one costs at least lam for every ancilla setting tried, (c) nothing is negative.  Exact integer
+    arithmetic throughout."""
+    import itertools
+    k = rng.randint(49, 70)
+    c = 2 ** k + rng.choice([0, 0, 1, 1, 2, 3, -1, 5])
+    x, y = "hx", "hy"
+    form = rng.choice(["single", "two", "two-small"])
+    P = {(x,): -c}
+    if form == "two":
+        P[(y,)] = -(2 ** rng.randint(3, k - 1) + rng.choice([0, 1]))
+    elif form == "two-small":
+        P[(y,)] = -3
+    if rng.random() < 0.8:
+        P[()] = rng.choice([1, 2, 5])          # some assignments violate
+    R = rng.choice(["le", "lt", "ge", "gt"])
+    argP = dict(P) if R in ("le", "lt") else {k_: -v for k_, v in P.items()}
+    Pp = ref.from_raw("bool", argP)
+    lam = rng.choice([1, 2, 3])
+    kw = {"lam": lam}
+    if rng.random() < 0.5:
+        kw["log_trick"] = True
+    vs = sorted(Pp.vars())
+    vals_ = [Pp.value(dict(zip(vs, bits))) for bits in itertools.product((0, 1), repeat=len(vs))]
+    if rng.random() < 0.3:
+        kw["bounds"] = (int(min(vals_)), int(max(vals_)))
+    H = L.PCBO()
+    w = {"model": "PCBO", "history": [["add_constraint_%s_zero" % R, {repr(k_): str(v) for k_, v in argP.items()}, dict(kw), "huge-bound 2**%d" % k]]}
+    with warnings.catch_warnings():
+        warnings.simplefilter("ignore")
+        ok, _ = ctx.call("add_constraint_%s_zero" % R, getattr(H, "add_constraint_%s_zero" % R), argP, _w=w, **kw)
+    if not ok:
+        return
+    ctx.cat("huge-bound:" + R)
+    ctx.cat("huge-bound")
+    anc = sorted(anc_names(H), key=lambda s: int(s[3:]))
+    if len(anc) > 90:
+        ctx.violation("%s:huge-bound:too-many-ancillas" % R, "%d ancillas for a bound of %d bits with log_trick" % (len(anc), k), w)
+        return
+    # slack weights as the model has them: for F = lam*(P + sum w_i a_i)**2 the (x, a_i) coefficient is 2*lam*p_x*w_i
+    px = argP[(x,)] + (0 if R in ("le", "ge") else 0)
+    wts = {}
+    for a in anc:
+        cf = H.get((x, a), H.get((a, x), 0))
+        if cf == 0 or (2 * lam * px) == 0 or cf % (2 * lam * px):
+            ctx.cat("huge-bound:weights-not-readable")
+            return
+        wts[a] = abs(cf // (2 * lam * px))
+    for bits in itertools.product((0, 1), repeat=len(vs)):
+        asg = dict(zip(vs, bits))
+        v = Pp.value(asg)
+        sat = bool(oracles.REL[R](v))
+        ctx.count("huge-bound-rows")
+        for _ in range(3):
+            full = dict(asg, **{a: rng.choice((0, 1)) for a in anc})
+            val = H.value(full)
+            if val < 0:
+                ctx.violation("%s:huge-bound:negative-penalty" % R, "F(%r) = %r" % (full, val), w)
+                return
+            if not sat and val < lam:
+                ctx.violation("%s:huge-bound:violated-but-cheap" % R, "P=%r violates, F = %r < lam = %r at %r" % (int(v), val, lam, full), w)
+                return
+        if not sat:
+            continue
+        # a satisfying row: the slack has to absorb |P| (le/ge) or |P| - 1 (lt/gt) exactly
+        need_options = [abs(int(v)), abs(int(v)) - 1, abs(int(v)) + 1]
+        found = H.value(dict(asg, **{a: 0 for a in anc})) == 0
+        for need in ([] if found else need_options):
+            if need < 0:
+                continue
+            rest, pick = need, {a: 0 for a in anc}
+            for a in sorted(anc, key=lambda a_: -wts[a_]):
+                if wts[a] <= rest:
+                    pick[a] = 1
+                    rest -= wts[a]
+            if rest == 0 and H.value(dict(asg, **pick)) == 0:
+                found = True
+                break
+        ctx.count("huge-bound-satisfying-rows")
+        if not found:
+            total = sum(wts.values())
+            if total < abs(int(v)) - 1:
+                ctx.violation("%s:huge-bound:slack-cannot-reach-the-bound" % R, "P = %d satisfies the relation but the %d slack bits sum to %d only" % (int(v), len(anc), total), w)
+            else:
+                ctx.violation("%s:huge-bound:satisfied-but-penalised" % R, "P = %d satisfies the relation; no ancilla setting found by the greedy fill of the model's own slack weights %r gives penalty 0" % (int(v), sorted(wts.values())[-3:]), w)
+            return
+    if anc:
+        ctx.cat("huge-bound:with-slack-bits")
+    ctx.nontrivial(("huge", R, k, c, form, sorted(kw.items(), key=repr)))
